@@ -4,6 +4,7 @@ import itertools
 from vp import env, world, forge, oracle
 
 _sp_cache = {}
+IDP_C = 'urn:vp:idpC'        # known to the SP, publishes an encryption key only
 
 
 def _sp(tmp, wr, wa, wo):
@@ -17,7 +18,8 @@ def _sp(tmp, wr, wa, wo):
             opts['want_assertions_signed'] = wa
         if wo is not None:
             opts['want_assertions_or_response_signed'] = wo
-        _sp_cache[k] = world.make_sp(tmp, [world.idp_md(keys=(('idpA', 'signing'),)), world.idp_md(world.IDP_B, keys=(('idpB', 'signing'),))], **opts)
+        _sp_cache[k] = world.make_sp(tmp, [world.idp_md(keys=(('idpA', 'signing'),)), world.idp_md(world.IDP_B, keys=(('idpB', 'signing'),)),
+                                           world.idp_md(IDP_C, keys=(('idpAenc', 'encryption'),), sso=(('https://idpc.example/sso', world.BINDING_HTTP_REDIRECT),), slo=())], **opts)
     return _sp_cache[k]
 
 
@@ -62,6 +64,26 @@ def cells(thorough):
     for sr, sa in itertools.product(opts, repeat=2):
         for enc in (False, True):
             out.append(dict(wr=None, wa=None, wo=None, sr=sr, sa=sa, enc=enc, cor='none', ident='id0', primed=False))
+            # ... also when another SP with explicit (lax / strict) options was built earlier in the same process
+            for after in ('lax', 'strict'):
+                out.append(dict(wr=None, wa=None, wo=None, sr=sr, sa=sa, enc=enc, cor='none', ident='id0', primed=False, after=after))
+    # the assertion is encrypted for a per-request key the application hands in (outstanding_certs), not for the
+    # SP's static key
+    for wr, wa, wo in itertools.product(opts, repeat=3):
+        for sr, sa in itertools.product(opts, repeat=2):
+            for cor in ('none', 'ass-content', 'resp-sigvalue'):
+                if (cor.startswith('ass') and not sa) or (cor.startswith('resp') and not sr):
+                    continue
+                out.append(dict(wr=wr, wa=wa, wo=wo, sr=sr, sa=sa, enc='percert', cor=cor, ident='id0', primed=False))
+    for sr, sa in itertools.product(opts, repeat=2):
+        out.append(dict(wr=None, wa=None, wo=None, sr=sr, sa=sa, enc='percert', cor='none', ident='id0', primed=False))
+    # an issuer the SP knows but that publishes no signing key: a signature in its name cannot be checked, so a
+    # message carrying one is never accepted (made with A's key or a foreign key)
+    for wr, wa, wo in itertools.product(opts, repeat=3):
+        for sr, sa in ((True, False), (False, True), (True, True)):
+            for enc in (False, True):
+                for k in ('idpA', 'mallory'):
+                    out.append(dict(wr=wr, wa=wa, wo=wo, sr=sr, sa=sa, enc=enc, cor='issuer-without-signing-key:' + k, ident='id0', primed=False))
     # mixed shape: one (validly signed) encrypted assertion next to a plain assertion whose signature is
     # valid / corrupted / absent.  Only the reject direction is demanded here (saml2int allows one assertion).
     for wr, wa, wo in itertools.product(opts, repeat=3):
@@ -96,11 +118,17 @@ def build(cell, now):
     cor = cell['cor']
     a = dict(IDENTS[cell['ident']])
     kw = dict(assertions=[a], sign_resp=False, sign_ass=False)
+    nokey = cor.startswith('issuer-without-signing-key:')
+    if nokey:
+        a['issuer'] = IDP_C
+        kw['resp'] = dict(issuer=IDP_C)
     if cell['sa']:
-        kw['sign_ass'] = 'mallory' if cor == 'ass-wrongkey' else 'idpA'
+        kw['sign_ass'] = 'mallory' if cor == 'ass-wrongkey' else (cor.split(':')[1] if nokey else 'idpA')
     if cell['sr']:
-        kw['sign_resp'] = 'mallory' if cor == 'resp-wrongkey' else 'idpA'
-    if cell['enc']:
+        kw['sign_resp'] = 'mallory' if cor == 'resp-wrongkey' else (cor.split(':')[1] if nokey else 'idpA')
+    if cell['enc'] == 'percert':
+        kw['encrypt'] = 'spXenc2'
+    elif cell['enc']:
         kw['encrypt'] = 'spXenc1'
     if cor == 'ass-content':
         # edit signed assertion content after the assertion signature, before encryption / response signature
@@ -121,6 +149,8 @@ def expected(cell):
         plain = cell['cor'][6:]
         req = (not cell['wr'] or cell['sr']) and (not cell['wa'] or plain == 'signed') and (not cell['wo'] or cell['sr'] or plain == 'signed')
         return None if (req and plain != 'corrupted') else False      # None: acceptance not demanded
+    if cell['cor'].startswith('issuer-without-signing-key'):
+        return False
     wr = True if cell['wr'] is None else cell['wr']      # documented default: want_response_signed = True
     wa = bool(cell['wa'])
     wo = bool(cell['wo'])
@@ -136,6 +166,8 @@ def evaluate(cell):
     env.Clock.set(env.BASE)
     env.reset_rng()
     env.Seam.reset()
+    if cell.get('after'):
+        _sp(TMP[0], *{'lax': (False, False, False), 'strict': (True, True, True)}[cell['after']])
     sp = _sp(TMP[0], cell['wr'], cell['wa'], cell['wo'])
     if cell.get('primed'):
         # non-initial state: the same SP has just accepted a genuine, fully signed message with the same IDs
@@ -149,7 +181,10 @@ def evaluate(cell):
     xml = build(cell, env.BASE)
     # resp-content corruption edits InResponseTo req1->req2: keep the confirmation consistent is not needed,
     # the response signature is broken either way and rejection is required.
-    obs = oracle.accept_response(sp, xml)
+    oc = None
+    if cell['enc'] == 'percert':
+        oc = {'req1': {'key': open(world.key('spXenc2')).read(), 'cert': open(world.crt('spXenc2')).read()}}
+    obs = oracle.accept_response(sp, xml, outstanding_certs=oc)
     return {'accept': obs['accept'], 'exc': obs.get('exc'), 'tool_calls': env.Seam.count,
             'subject': (obs.get('identity') or {}).get('name_id', [None])[0] if obs['accept'] else None}
 
@@ -190,7 +225,7 @@ def run(ctx):
         'level': 'exploration',
         'coverage': {
             'evaluations': len(cs), 'distinct_nontrivial': len(nontrivial),
-            'rule': 'complete product: 8 want_* settings (+ options-absent row group) x {response,assertion} signed x plain/encrypted x corruption kind (content edit / SignatureValue flip%s of each present signature) x identities x {fresh SP, SP that has just accepted a genuine message with the same IDs}; non-trivial = at least one requirement enabled or one signature present; distinct = distinct cell coordinates' % (' / signed by a non-metadata key' if ctx.thorough else ''),
+            'rule': 'complete product: 8 want_* settings (+ options-absent row group, also after an SP with explicit lax / strict options was built in the same process) x {response,assertion} signed x plain / encrypted for the static key / encrypted for a per-request key (outstanding_certs) x corruption kind (content edit / SignatureValue flip%s of each present signature) x identities; messages in the name of an issuer that publishes no signing key, signed with the key of another entity or a foreign key; x {fresh SP, SP that has just accepted a genuine message with the same IDs}; non-trivial = at least one requirement enabled or one signature present; distinct = distinct cell coordinates' % (' / signed by a non-metadata key' if ctx.thorough else ''),
             'samples': samples, 'exhaustive': True, 'accepted_cells': n_acc,
             'distinct_outcomes': len(outcomes), 'outcome_histogram': {'%s/%s' % k: v for k, v in sorted(outcomes.items(), key=str)},
             'dimensions': {'want_response_signed': [False, True, 'absent'], 'want_assertions_signed': [False, True, 'absent'],
@@ -208,7 +243,7 @@ def forge_subject(c):
 
 def replay(ctx, w):
     TMP[0] = ctx.tmp
-    cell = {k: w.get(k) for k in ('wr', 'wa', 'wo', 'sr', 'sa', 'enc', 'cor', 'ident', 'primed')}
+    cell = {k: w.get(k) for k in ('wr', 'wa', 'wo', 'sr', 'sa', 'enc', 'cor', 'ident', 'primed', 'after')}
     r = evaluate(cell)
     exp = expected(cell)
     return {'violation': exp is not None and r['accept'] != exp, 'observed': r, 'expected_accept': exp}
